@@ -594,6 +594,11 @@ func (d *DefaultServerDispatcher) messagePump() {
 					continue
 				}
 				bundle, _ := el.(RequestBundle)
+				if _, pending := d.pendingRequestState.GetClientState(clientID).GetPendingRequest(bundle.Call.UniqueId); !pending {
+					// The pending request was concluded by a response in the meantime:
+					// the head of the queue is the next request, which was not sent yet
+					continue
+				}
 				d.CompleteRequest(clientID, bundle.Call.UniqueId)
 				log.Infof("request %v for %v timed out", bundle.Call.UniqueId, clientID)
 				if d.onRequestCancel != nil {
